@@ -44,6 +44,9 @@ func NewProgram(prog *ssa.Program, sizes types.Sizes) *Program {
 	initReflect(tmp)
 	p.reflectPackage, p.errorMethods, p.rtypeMethods = tmp.reflectPackage, tmp.errorMethods, tmp.rtypeMethods
 	registerHooks(p)
+	for _, f := range extraHooks {
+		f(p)
+	}
 	return p
 }
 
@@ -80,14 +83,15 @@ type PathResult struct {
 
 // extra interpreter state (fields added to the fork's interpreter struct)
 type engineState struct {
-	P       *Program
-	ps      *PathState
-	cfg     Config
-	depth   int
-	inited  map[*types.Package]bool
-	Covered map[*ssa.Function]int
-	stubs   map[string]bool
-	symKeys bool
+	P          *Program
+	ps         *PathState
+	cfg        Config
+	depth      int
+	inited     map[*types.Package]bool
+	Covered    map[*ssa.Function]int
+	stubs      map[string]bool
+	symKeys    bool
+	panicStack string
 }
 
 func (i *interpreter) noteStub(s string) {
@@ -247,6 +251,7 @@ func (p *Program) RunPath(harness *ssa.Function, prefix []int, solver *smt.Solve
 				res.Msg = fmt.Sprintf("executor: unexpected panic %T %v\n%s", r, r, shortStack())
 			}
 			if res.Outcome == "panic" {
+				res.Msg += " @ " + i.es.panicStack
 				ps.Reached["panic"]++
 				ps.recordViolation("panic", "panic", res.Msg, "")
 			}
